@@ -194,6 +194,11 @@ func (k Keeper) UpdateAVSInfo(ctx sdk.Context, params *types.AVSRegisterOrDeregi
 		avs.MinSelfDelegation = params.MinSelfDelegation
 
 		if params.EpochIdentifier != "" {
+			// every later action on the AVS (also this one, and deregistration) looks the stored identifier up
+			// and fails when it does not exist, so an unknown identifier must not be stored
+			if _, found := k.epochsKeeper.GetEpochInfo(ctx, params.EpochIdentifier); !found {
+				return errorsmod.Wrap(types.ErrEpochNotFound, fmt.Sprintf("epoch info not found %s", params.EpochIdentifier))
+			}
 			avs.EpochIdentifier = params.EpochIdentifier
 		}
 
